@@ -1,36 +1,45 @@
-(** Model of crates/sameold/src/receiver/framing.rs.  No proofs here. *)
+(** Model of crates/sameold/src/receiver/framing.rs.  No proofs here.
+    The 32-bit search word is kept as its four bytes (oldest first): shifting a byte in
+    drops the oldest, and the bit distance of the word is the sum of the byte distances.
+    [message_prefix_errors_u32] restates the u32 formulation for the correspondence check. *)
 From Sameold Require Import Base.Bytes Model.Header Model.Combiner.
 From Sameold Require Gen.Generated.
 
 Inductive link := LNoCarrier | LSearching | LReading | LBurst (b : bytes).
 
-(** the message being read is kept newest-first ([racc]); the burst is [rev racc] *)
 Inductive fstate :=
 | FIdle
-| FPrefixSearch (word : N) (count : N)
-| FDataRead (racc : bytes) (invalid : N).
+| FPrefixSearch (word : bytes) (count : N)      (* last four bytes, oldest first *)
+| FDataRead (msg : bytes) (invalid : N).
 
 Record fcfg := mkFcfg { max_prefix_bit_errors : N; max_invalid_bytes : N }.
 
 Definition PREFIX_SEARCH_LEN : N := Generated.PREFIX_SEARCH_LEN.
 Definition MAX_BURST_LENGTH : nat := N.to_nat Generated.MAX_BURST_LENGTH.
-Definition PREFIX_BYTES_START : N := 1514362435.   (* "ZCZC" big-endian 0x5A435A43 *)
-Definition PREFIX_BYTES_END : N := 1313754702.     (* "NNNN" big-endian 0x4E4E4E4E *)
-Definition U32_MOD : N := 4294967296.
+Definition PREFIX_START : bytes := [90; 67; 90; 67].   (* "ZCZC" *)
+Definition PREFIX_END : bytes := [78; 78; 78; 78].     (* "NNNN" *)
+Definition ZERO_WORD : bytes := [0; 0; 0; 0].
 
-Definition message_prefix_errors (w : N) : N :=
-  N.min (popcount (N.lxor w PREFIX_BYTES_START)) (popcount (N.lxor w PREFIX_BYTES_END)).
+Fixpoint bit_distance (a b : bytes) : N :=
+  match a, b with
+  | x :: a', y :: b' => popcount (N.lxor x y) + bit_distance a' b'
+  | _, _ => 0
+  end.
 
-(** [u32::to_be_bytes] *)
+Definition prefix_errors (w : bytes) : N :=
+  N.min (bit_distance w PREFIX_START) (bit_distance w PREFIX_END).
+
+(** [u32::to_be_bytes] and the u32 formulation of [message_prefix_errors] *)
 Definition be_bytes (w : N) : bytes :=
   [N.shiftr w 24 mod 256; N.shiftr w 16 mod 256; N.shiftr w 8 mod 256; w mod 256].
+Definition message_prefix_errors_u32 (w : N) : N := prefix_errors (be_bytes w).
 
 Definition framer_state (s : fstate) : link :=
   match s with FIdle => LNoCarrier | FPrefixSearch _ _ => LSearching | FDataRead _ _ => LReading end.
 
 Definition framer_end (s : fstate) : link * fstate :=
   match s with
-  | FDataRead racc _ => (LBurst (rev racc), FIdle)
+  | FDataRead msg _ => (LBurst msg, FIdle)
   | _ => (LNoCarrier, FIdle)
   end.
 
@@ -39,27 +48,27 @@ Definition framer_step (c : fcfg) (s : fstate) (data : N) : link * fstate :=
   match s with
   | FIdle => (LNoCarrier, FIdle)
   | FPrefixSearch w cnt =>
-    let w' := (N.lor (N.shiftl w 8) data) mod U32_MOD in
+    let w' := tl w ++ [data] in
     let cnt' := cnt + 1 in
     let s' :=
-      if message_prefix_errors w' <=? max_prefix_bit_errors c then FDataRead (rev (be_bytes w')) 0
+      if prefix_errors w' <=? max_prefix_bit_errors c then FDataRead w' 0
       else if PREFIX_SEARCH_LEN <? cnt' then FIdle
       else FPrefixSearch w' cnt' in
     (framer_state s', s')
-  | FDataRead racc inv =>
+  | FDataRead msg inv =>
     let inv' := inv + b2n (negb (is_allowed_byte data)) in
     if max_invalid_bytes c <? inv' then framer_end s
     else
-      let racc' := data :: racc in
-      if (MAX_BURST_LENGTH <=? length racc')%nat then framer_end (FDataRead racc' inv')
-      else (LReading, FDataRead racc' inv')
+      let msg' := msg ++ [data] in
+      if (MAX_BURST_LENGTH <=? length msg')%nat then framer_end (FDataRead msg' inv')
+      else (LReading, FDataRead msg' inv')
   end.
 
 (** [input(data, _, restart)] *)
 Definition framer_input (c : fcfg) (s : fstate) (data : N) (restart : bool) : link * fstate :=
   if restart then
     let out := fst (framer_end s) in
-    let s2 := snd (framer_step c (FPrefixSearch 0 0) data) in
+    let s2 := snd (framer_step c (FPrefixSearch ZERO_WORD 0) data) in
     (match out with LBurst _ => out | _ => LSearching end, s2)
   else framer_step c s data.
 
@@ -68,4 +77,14 @@ Definition link_eqb (a b : link) : bool :=
   | LNoCarrier, LNoCarrier | LSearching, LSearching | LReading, LReading => true
   | LBurst x, LBurst y => list_eqb x y
   | _, _ => false
+  end.
+
+(** a run of [input(_, _, false)] calls *)
+Fixpoint framer_steps (c : fcfg) (s : fstate) (ds : bytes) : list link * fstate :=
+  match ds with
+  | [] => ([], s)
+  | d :: r =>
+    let '(l, s') := framer_step c s d in
+    let '(ls, s'') := framer_steps c s' r in
+    (l :: ls, s'')
   end.
